@@ -55,7 +55,7 @@ def main():
     metas = sorted(glob.glob(os.path.join(HERE, "mutants", "*.json")))
     if len(sys.argv) > 1:
         metas = [m for m in metas if any(a in m for a in sys.argv[1:])]
-    with ThreadPoolExecutor(max_workers=8) as ex:
+    with ThreadPoolExecutor(max_workers=int(os.environ.get("MMD_JOBS", "8"))) as ex:
         res = list(ex.map(run_one, metas))
     bad = 0
     for name, status, detail in res:
